@@ -46,7 +46,8 @@ TRANSITIONS = ['text>text', 'text>src', 'src>src', 'src>want', 'src>text', 'want
 def required_cells(tier):
     return (['shape:' + s for s in SHAPES] + ['want:' + w for w in WANTS] + ['trans:' + t for t in TRANSITIONS] +
             ['indent:0', 'indent:2', 'indent:4', 'indent:8', 'dedent-prose', 'corpus:repo', 'tabs', 'program-layout',
-             'reindent-after-want:less', 'reindent-after-want:more', 'whitespace-only-line'] +
+             'reindent-after-want:less', 'reindent-after-want:more', 'whitespace-only-line',
+             'blanks-only-continuation-line'] +
             (['corpus:stdlib'] if tier == 'thorough' else []))
 
 
@@ -320,6 +321,8 @@ def check_program_layout(ctx, index, seed):
         return
     ctx.event('label_sequences_compared')
     ctx.cell('program-layout')
+    if 'blanks-only-continuation-line' in info['features']:
+        ctx.cell('blanks-only-continuation-line')
     if len(set(exp)) == 3:
         ctx.nontrivial(doc)
 
